@@ -802,6 +802,21 @@ def r12(ctx: Ctx):
            and isinstance(l.iter, ast.Call) and unparse(l.iter.func) == 'range' and any(
                isinstance(c, ast.Call) and isinstance(c.func, ast.Attribute) and c.func.attr == 'append'
                for c in ast.walk(l))]
+  # every reader built for a sub-sequence index that RANGES over several sub-sequences (loop or
+  # comprehension variable) starts at the beginning of that sub-sequence: only the first piece
+  # carries the in-sequence start offset
+  for c in ast.walk(fi.node):
+    if isinstance(c, ast.Call) and unparse(c.func).endswith('_index_slice') and c.args and isinstance(c.args[0], ast.Name):
+      iv_ = c.args[0].id
+      ranging = any(isinstance(x, (ast.For, ast.comprehension)) and isinstance(x.target, ast.Name) and x.target.id == iv_
+                    for x in ast.walk(fi.node))
+      if ranging and len(c.args) > 1 and not (isinstance(c.args[1], ast.Constant) and c.args[1].value in (0, None)):
+        ctx.fail(rule, fi, 'MergedSequences.slice: the pieces after the first start at offset 0',
+                 f'`{unparse(c)[:60]}` applies the start offset `{unparse(c.args[1])}` to every sub-sequence the'
+                 f' variable `{iv_}` ranges over: a window that begins inside one sub-sequence and covers further'
+                 ' ones skips the first records of each later sub-sequence', node=c)
+        ctx.floor(rule, 1, 1)
+        return
   if len(loops) != 1:
     raise AnalysisError(f'{rule}: expected one loop over the middle sub-sequences in MergedSequences.slice')
   lp = loops[0]
@@ -915,6 +930,9 @@ from mlmverif.selfcheck import B, OK  # noqa: E402
 
 _F = 'chainables/io.py'
 VARIANTS = [
+    B('slice-start-offset-on-every-piece', 'utils/iter_utils.py',
+      '    sequences = [self._index_slice(start.seq_idx, start.idx, None)]\n    for i_seq in range(start.seq_idx + 1, stop.seq_idx):\n      sequences.append(self._index_slice(i_seq))',
+      '    sequences = [\n        self._index_slice(i_seq, start.idx)\n        for i_seq in range(start.seq_idx, stop.seq_idx)\n    ]', 'R-C09-12'),
     B('negative-index-wraps-with-modulo', 'utils/iter_utils.py',
       '    index = len(self) + index if index < 0 else index', '    index = index % len(self) if index < 0 else index', 'R-C09-13'),
     OK('negative-index-operands-swapped', 'utils/iter_utils.py',
